@@ -565,6 +565,7 @@ type SpecFunc struct {
 	Result string
 	Body   *SExpr // nil for ghost (uninterpreted)
 	Rec    bool
+	Macro  bool // expanded in place instead of being defined as an SMT function
 	Pos    string
 	Pkg    string
 }
@@ -585,12 +586,13 @@ type SpecFile struct {
 	Axioms    []*AxiomSpec
 	Nullable  map[string]bool // library: nullable external fields "pkg.Type.Field"
 	GhostFields map[string]string // "pkg.Type.$name" -> type
+	Evaluated []string // package-level variables whose initial value is obtained by running the real initialiser
 }
 
 var clauseKeywords = map[string]bool{
 	"func": true, "requires": true, "ensures": true, "assigns": true, "fresh": true, "pure": true,
 	"trusted": true, "loop": true, "at": true, "ghost": true, "axiom": true, "lemma": true, "props": true,
-	"nullable": true, "nonnil": true, "let": true, "nullablefield": true, "impure": true, "ghostfield": true, "nilrecv": true,
+	"nullable": true, "nonnil": true, "let": true, "nullablefield": true, "impure": true, "ghostfield": true, "nilrecv": true, "evaluated": true, "macro": true,
 }
 
 // parseSpecLines parses the `//@` lines of a contract file. lines are (text, pos) with the `//@` stripped.
@@ -701,6 +703,16 @@ func parseSpecLines(pkg string, lines []string, poss []string) (*SpecFile, error
 				cur.Pure = true
 				cur.AssignsOK = true
 			}
+		case "macro":
+			if !strings.HasPrefix(rest, "func") {
+				return nil, perr(fmt.Errorf("macro must be followed by func"))
+			}
+			f, err := parseSpecFunc(strings.TrimSpace(rest[4:]), it.pos, pkg)
+			if err != nil {
+				return nil, err
+			}
+			f.Macro = true
+			sf.Funcs = append(sf.Funcs, f)
 		case "ghost":
 			if !strings.HasPrefix(rest, "func") {
 				return nil, perr(fmt.Errorf("ghost must be followed by func"))
@@ -733,6 +745,8 @@ func parseSpecLines(pkg string, lines []string, poss []string) (*SpecFile, error
 				sf.GhostFields = map[string]string{}
 			}
 			sf.GhostFields[f[0]] = f[1]
+		case "evaluated":
+			sf.Evaluated = append(sf.Evaluated, strings.Fields(strings.ReplaceAll(rest, ",", " "))...)
 		case "nullablefield":
 			for _, f := range strings.Fields(strings.ReplaceAll(rest, ",", " ")) {
 				sf.Nullable[f] = true
